@@ -131,7 +131,7 @@ VARIANTS += [
     V("ikv-and-contain", ["C17"], H, "    def __and__(self, other: ImmutableKnotVector) -> ImmutableKnotVector:\n        other = ImmutableKnotVector(other)\n        if self.limits != other.limits:", "    def __and__(self, other: ImmutableKnotVector) -> ImmutableKnotVector:\n        other = ImmutableKnotVector(other)\n        if not other.valid(self.limits):", "SAME-INTERVAL", "__and__", "one-sided containment"),
     V("twin-scalar-default-closed", ["C10"], CA, "            method = \"open-newton-cotes\"\n        else:\n            method = \"chebyshev\"\n        if nnodes is None:\n            nnodes = max(2, 1 + curve.degree)  # The closed rule needs 2\n", "            method = \"closed-newton-cotes\"\n        else:\n            method = \"chebyshev\"\n        if nnodes is None:\n            nnodes = max(2, 1 + curve.degree)  # The closed rule needs 2\n", None, None, "closed default rule in Integrate.scalar — harmless since every span evaluates its own piece", twin=True, near=157),
     V("function-default-closed", ["C10"], CA, "            method = \"open-newton-cotes\"\n        else:\n            method = \"chebyshev\"\n        if nnodes is None:\n            nnodes = max(2, 1 + knotvector.degree)  # The closed rule needs 2\n", "            method = \"closed-newton-cotes\"\n        else:\n            method = \"chebyshev\"\n        if nnodes is None:\n            nnodes = max(2, 1 + knotvector.degree)  # The closed rule needs 2\n", "DEFAULT-OPEN", "Integrate.function", "closed default rule where the user integrand is evaluated at the span ends"),
-    V("rev-F31", ["C10"], CA, "        for piece in curve.split():  # Each piece is closed on its own span\n            start, end = piece.knotvector.limits\n            nodes = tuple(start + (end - start) * node for node in nodes_0to1)\n            curve_vals = tuple(piece.eval(node) for node in nodes)\n            function_vals", "        knots = curve.knotvector.knots\n        for start, end in zip(knots[:-1], knots[1:]):\n            nodes = tuple(start + (end - start) * node for node in nodes_0to1)\n            curve_vals = tuple(curve.eval(node) for node in nodes)\n            function_vals", "PIECEWISE-EVAL", "Integrate.scalar", "whole curve evaluated at the span ends"),
+    V("rev-F31", ["C10"], CA, "        for piece in curve.split():  # Each piece is closed on its own span\n            start, end = piece.knotvector.limits\n            # Exact at both ends: start + (end - start) can pass end by rounding\n            nodes = tuple((1 - node) * start + node * end for node in nodes_0to1)\n            curve_vals = tuple(piece.eval(node) for node in nodes)\n            function_vals", "        knots = curve.knotvector.knots\n        for start, end in zip(knots[:-1], knots[1:]):\n            # Exact at both ends: start + (end - start) can pass end by rounding\n            nodes = tuple((1 - node) * start + node * end for node in nodes_0to1)\n            curve_vals = tuple(curve.eval(node) for node in nodes)\n            function_vals", "PIECEWISE-EVAL", "Integrate.scalar", "whole curve evaluated at the span ends"),
     V("weight-cast-each", ["C18"], K, "            listknots[i + 1] = listknots[i] + weight", "            listknots[i + 1] = listknots[i] + cls(weight)", "SIBLING-CAST", "GeneratorKnotVector.weight", "each weight converted to the class of the first"),
     V("twin-weight-zero", ["C18"], K, "        listknots = [cls(0) for i in range(1 + len(weights))]", "        zero = cls(0)\n        listknots = [zero] * (1 + len(weights))", None, None, "zero of the first weight's class built once", twin=True),
     V("twin-feval-inline", ["C02"], F, "        evaluator = self[:, self.degree]\n        return evaluator(nodes)", "        return self[:, self.degree](nodes)", None, None, "evaluator applied without a local name", twin=True),
@@ -215,8 +215,8 @@ VARIANTS += [
         (H, "        if number < 2:\n            return 1\n        prod = 1\n        for i in range(2, number + 1):\n            prod *= i\n        return prod\n", "        if number not in _FACTORIALS:\n            prod = 1\n            for i in range(2, number + 1):\n                prod *= i\n            _FACTORIALS[number] = prod\n        return _FACTORIALS[number]\n", None),
         (H, "def number_type(number: Union[int, float, Fraction]):", "_FACTORIALS = {}\n\n\ndef number_type(number: Union[int, float, Fraction]):", None)],
         rule=None, func=None, what="a module-level table keyed by a small integer", twin=True),
-    V("size-too-few", ["C10"], CA, "        if nnodes is None:\n            nnodes = max(2, 1 + curve.degree)  # The closed rule needs 2\n        nodes_func = nodes_functs[method]\n        integ_array_func = array_functs[method]\n        nodes_0to1 = nodes_func(nnodes)\n        integ_array = integ_array_func(nnodes)\n        integrals = []\n        for piece in curve.split():  # Each piece is closed on its own span\n            start, end = piece.knotvector.limits\n            nodes = tuple(start + (end - start) * node for node in nodes_0to1)\n            curve_vals = tuple(piece.eval(node) for node in nodes)\n            function_vals", "        if nnodes is None:\n            nnodes = max(2, curve.degree)\n        nodes_func = nodes_functs[method]\n        integ_array_func = array_functs[method]\n        nodes_0to1 = nodes_func(nnodes)\n        integ_array = integ_array_func(nnodes)\n        integrals = []\n        for piece in curve.split():  # Each piece is closed on its own span\n            start, end = piece.knotvector.limits\n            nodes = tuple(start + (end - start) * node for node in nodes_0to1)\n            curve_vals = tuple(piece.eval(node) for node in nodes)\n            function_vals", "SIZE-DEFAULT", "Integrate.scalar", "one node too few for the degree"),
-    V("twin-size-gauss", ["C10"], CA, "        if nnodes is None:\n            nnodes = max(2, 1 + curve.degree)  # The closed rule needs 2\n        nodes_func = nodes_functs[method]\n        integ_array_func = array_functs[method]\n        nodes_0to1 = nodes_func(nnodes)\n        integ_array = integ_array_func(nnodes)\n        integrals = []\n        for piece in curve.split():  # Each piece is closed on its own span\n            start, end = piece.knotvector.limits\n            nodes = tuple(start + (end - start) * node for node in nodes_0to1)\n            curve_vals = tuple(piece.eval(node) for node in nodes)\n            function_vals", "        if nnodes is None:\n            nnodes = max(2, 1 + curve.degree)  # The closed rule needs 2\n            if method == \"gauss-legendre\":  # n nodes are exact up to degree 2n-1\n                nnodes = max(1, (2 + curve.degree) // 2)\n        nodes_func = nodes_functs[method]\n        integ_array_func = array_functs[method]\n        nodes_0to1 = nodes_func(nnodes)\n        integ_array = integ_array_func(nnodes)\n        integrals = []\n        for piece in curve.split():  # Each piece is closed on its own span\n            start, end = piece.knotvector.limits\n            nodes = tuple(start + (end - start) * node for node in nodes_0to1)\n            curve_vals = tuple(piece.eval(node) for node in nodes)\n            function_vals", None, None, "Gauss rule with ceil((p+1)/2) nodes: still exact", twin=True),
+    V("size-too-few", ["C10"], CA, "        if nnodes is None:\n            nnodes = max(2, 1 + curve.degree)  # The closed rule needs 2\n        nodes_func = nodes_functs[method]\n        integ_array_func = array_functs[method]\n        nodes_0to1 = nodes_func(nnodes)\n        integ_array = integ_array_func(nnodes)\n        integrals = []\n        for piece in curve.split():  # Each piece is closed on its own span\n            start, end = piece.knotvector.limits\n            # Exact at both ends: start + (end - start) can pass end by rounding\n            nodes = tuple((1 - node) * start + node * end for node in nodes_0to1)\n            curve_vals = tuple(piece.eval(node) for node in nodes)\n            function_vals", "        if nnodes is None:\n            nnodes = max(2, curve.degree)\n        nodes_func = nodes_functs[method]\n        integ_array_func = array_functs[method]\n        nodes_0to1 = nodes_func(nnodes)\n        integ_array = integ_array_func(nnodes)\n        integrals = []\n        for piece in curve.split():  # Each piece is closed on its own span\n            start, end = piece.knotvector.limits\n            # Exact at both ends: start + (end - start) can pass end by rounding\n            nodes = tuple((1 - node) * start + node * end for node in nodes_0to1)\n            curve_vals = tuple(piece.eval(node) for node in nodes)\n            function_vals", "SIZE-DEFAULT", "Integrate.scalar", "one node too few for the degree"),
+    V("twin-size-gauss", ["C10"], CA, "        if nnodes is None:\n            nnodes = max(2, 1 + curve.degree)  # The closed rule needs 2\n        nodes_func = nodes_functs[method]\n        integ_array_func = array_functs[method]\n        nodes_0to1 = nodes_func(nnodes)\n        integ_array = integ_array_func(nnodes)\n        integrals = []\n        for piece in curve.split():  # Each piece is closed on its own span\n            start, end = piece.knotvector.limits\n            # Exact at both ends: start + (end - start) can pass end by rounding\n            nodes = tuple((1 - node) * start + node * end for node in nodes_0to1)\n            curve_vals = tuple(piece.eval(node) for node in nodes)\n            function_vals", "        if nnodes is None:\n            nnodes = max(2, 1 + curve.degree)  # The closed rule needs 2\n            if method == \"gauss-legendre\":  # n nodes are exact up to degree 2n-1\n                nnodes = max(1, (2 + curve.degree) // 2)\n        nodes_func = nodes_functs[method]\n        integ_array_func = array_functs[method]\n        nodes_0to1 = nodes_func(nnodes)\n        integ_array = integ_array_func(nnodes)\n        integrals = []\n        for piece in curve.split():  # Each piece is closed on its own span\n            start, end = piece.knotvector.limits\n            # Exact at both ends: start + (end - start) can pass end by rounding\n            nodes = tuple((1 - node) * start + node * end for node in nodes_0to1)\n            curve_vals = tuple(piece.eval(node) for node in nodes)\n            function_vals", None, None, "Gauss rule with ceil((p+1)/2) nodes: still exact", twin=True),
     V("twin-or-equal", ["C17"], H, "        if self.limits != other.limits:\n            raise ValueError\n        all_knots = list(self.knots) + list(other.knots)", "        if self.limits != other.limits:\n            raise ValueError\n        if self == other:\n            return self\n        all_knots = list(self.knots) + list(other.knots)", None, None, "shortcut for equal vectors", twin=True),
     V("and-shortcut-knots", ["C17"], H, "        if self.limits != other.limits:\n            raise ValueError\n        all_knots = tuple(sorted(set(self.knots) & set(other.knots)))", "        if self.limits != other.limits:\n            raise ValueError\n        if self.knots == other.knots:\n            return other\n        all_knots = tuple(sorted(set(self.knots) & set(other.knots)))", "BOTH-MULTS", "__and__", "shortcut on equal distinct knots"),
     V("twin-filter-local", ["C20"], A, "                if np.linalg.norm(pair - filtpair) < tolerance:\n                    inside = True", "                gap = np.linalg.norm(pair - filtpair)\n                if gap < tolerance:\n                    inside = True", None, None, "distance through a local", twin=True),
